@@ -252,27 +252,9 @@ func (ix *Index) orderedBefore(b, a *JobRec) bool {
 	first := false // b certainly accepted before a
 	switch {
 	case b.Group >= 0 && b.Group == a.Group:
-		g := ix.Groups[b.Group]
-		bi, ai := -1, -1
-		for i, n := range g.Items {
-			if n == b.N {
-				bi = i
-			}
-			if n == a.N {
-				ai = i
-			}
-		}
-		first = bi < ai
+		first = b.BatchIdx < a.BatchIdx
 	case b.Pre && a.Pre:
-		for _, it := range ix.C.Cfg.PreItems {
-			if it.N == b.N {
-				first = true
-				break
-			}
-			if it.N == a.N {
-				break
-			}
-		}
+		first = b.BatchIdx < a.BatchIdx
 	case b.Pre:
 		first = true
 	case a.Pre:
@@ -310,13 +292,19 @@ func oC04(ix *Index) []Violation {
 		}
 		return b.Add.Ret
 	}
+	byQ := map[int][]*JobRec{}
+	for _, n := range ix.JobNums {
+		b := ix.Jobs[n]
+		if b.Accepted == 1 && b.It != nil {
+			byQ[b.Q] = append(byQ[b.Q], b)
+		}
+	}
 	check := func(a *JobRec, lower int, at int, what string) bool {
-		for _, n := range ix.JobNums {
-			b := ix.Jobs[n]
-			if b == a || b.Accepted != 1 || b.firstEnter(ix.N) < at || ix.optional(b, at) {
+		for _, b := range byQ[a.Q] {
+			if b == a || b.firstEnter(ix.N) < at || inQueueBy(b) >= lower {
 				continue
 			}
-			if inQueueBy(b) < lower && ix.orderedBefore(b, a) {
+			if ix.orderedBefore(b, a) && !ix.optional(b, at) {
 				out = append(out, v("C04", what, "job %d (prio %d) started at %d while job %d (prio %d) of the same queue %d was pending and ahead of it (accepted by %d)", a.N, a.It.Prio, at, b.N, b.It.Prio, a.Q, inQueueBy(b)))
 				return true
 			}
